@@ -18,6 +18,7 @@ pub mod c10;
 pub mod tunnelreq;
 pub mod c11;
 pub mod c12;
+pub mod c12quic;
 pub mod c13;
 pub mod c13bin;
 pub mod c14;
